@@ -40,7 +40,8 @@ partial def parseTy (cs : List Char) : Option (Ty × List Char) :=
       if head == "tuple" then some (tupleOf args, rest) else
       match args with
       | [a] =>
-        if head == "option" then some (.option a, rest)
+        if head.startsWith "tuplen:" then (head.drop 7).toString.toNat?.map fun n => (tupleOf (List.replicate n a), rest)
+        else if head == "option" then some (.option a, rest)
         else if head == "opt1" then some (.opt1 a, rest)
         else if head == "opt0" then some (.opt0 a, rest)
         else if head.startsWith "ary:" then (lenKindOf (head.drop 4).toString).map fun l => (.ary l a, rest)
@@ -92,11 +93,61 @@ def svOfString (s : String) : Option SV :=
   | some (v, []) => some v
   | _ => none
 
-/-- a byte-string atom: parts joined by `+`, each hex or `r<count>x<hex>` (the hex repeated `count` times) -/
+/-! ### deterministic, non-periodic contents for big values (the harness's `c06Mix`, `c06GenElem`, `c06Expand`) -/
+
+def m64 : Nat := 2 ^ 64
+def mix (x : Nat) : Nat := ((x + 1) * 0x9E3779B97F4A7C15) % m64
+def subSeed (x j : Nat) : Nat := (x * 31 + j + 1) % m64
+def itemSeed (seed k : Nat) : Nat := (seed * 1000003 + k) % m64
+/-- two's complement of a `b`-bit field as a 64-bit word -/
+def sext (v b : Nat) : BitVec 64 := BitVec.ofNat 64 (if v ≥ 2 ^ (b - 1) then v + m64 - 2 ^ b else v)
+
+def genBytes (x n : Nat) : Bytes := (List.range n).map fun j => BitVec.ofNat 8 (mix (subSeed x j) / 2 ^ 56)
+
+/-- the value of type `t` derived from `x`; `j` is the index of the next field while walking a tuple -/
+def genAbs : (t : Ty) → Nat → Nat → t.Abs
+  | .bool, x, _ => mix x / 2 ^ 63 == 1
+  | .byte, x, _ | .ubyte, x, _ | .angle, x, _ => BitVec.ofNat 8 (mix x / 2 ^ 56)
+  | .short, x, _ | .ushort, x, _ => BitVec.ofNat 16 (mix x / 2 ^ 48)
+  | .int, x, _ | .float, x, _ | .varint, x, _ => BitVec.ofNat 32 (mix x / 2 ^ 32)
+  | .long, x, _ | .double, x, _ | .varlong, x, _ => BitVec.ofNat 64 (mix x)
+  | .string, x, _ | .bytearray, x, _ | .pluginmsg, x, _ => genBytes x ((mix x / 2 ^ 60) % 4)
+  | .position, x, _ => (sext (mix x / 2 ^ 38) 26, sext (mix (x + 1) / 2 ^ 52) 12, sext (mix (x + 2) / 2 ^ 38) 26)
+  | .uuid, x, _ => BitVec.ofNat 128 (mix x * m64 + mix (x + 0x51))
+  | .bitset, x, _ => (List.range (mix x / 2 ^ 62)).map fun j => BitVec.ofNat 64 (mix (subSeed x j))
+  | .fixedbits n, x, _ => BitVec.ofNat (8 * n) (unbe (genBytes x n))
+  | .unit, _, _ => ()
+  | .pair a b, x, j => (genAbs a (subSeed x j) 0, genAbs b x (j + 1))
+  | .option t, x, _ => if mix x / 2 ^ 63 == 0 then none else some (genAbs t (subSeed x 0) 0)
+  | .opt1 t, x, _ => genAbs t (subSeed x 0) 0
+  | .opt0 _, _, _ => ()
+  | .ary _ t, x, _ => (List.range (mix x / 2 ^ 62)).map fun j => genAbs t (subSeed x j) 0
+
+/-- the fields of a tuple written `#<n>s<seed>`: field `k` from `itemSeed seed k` -/
+def genTuple : (t : Ty) → Nat → Nat → t.Abs
+  | .pair a b, seed, k => (genAbs a (itemSeed seed k) 0, genTuple b seed (k + 1))
+  | t, seed, k => genAbs t (itemSeed seed k) 0
+
+/-- `#<count>s<seed>` -/
+def parseGen (s : String) : Option (Nat × Nat) :=
+  if !s.startsWith "#" then none else
+  match (s.drop 1).toString.splitOn "s" with
+  | [n, seed] => do let n ← n.toNat?; let seed ← seed.toNat?; pure (n, seed)
+  | _ => none
+
+/-- a byte-string atom: parts joined by `+`, each hex, `r<count>x<hex>` (the hex repeated `count` times) or
+`g<len>s<seed>` (non-periodic: byte `i` is the top byte of `mix (itemSeed seed i)`) -/
 def parseBytesExpr (s : String) : Option Bytes :=
   if s == "-" then some [] else
   (s.splitOn "+").foldlM (fun acc part =>
-    if part.startsWith "r" then
+    if part.startsWith "g" then
+      match (part.drop 1).toString.splitOn "s" with
+      | [n, seed] => do
+        let n ← n.toNat?
+        let seed ← seed.toNat?
+        pure (acc ++ (List.range n).map fun k => BitVec.ofNat 8 (mix (itemSeed seed k) / 2 ^ 56))
+      | _ => none
+    else if part.startsWith "r" then
       match (part.drop 1).toString.splitOn "x" with
       | [n, h] => do
         let n ← n.toNat?
@@ -130,7 +181,11 @@ def toAbs : (t : Ty) → SV → Option t.Abs
   | .bitset, .list xs => xs.mapM fun
     | .atom s => hexBV 64 16 s
     | _ => none
-  | .fixedbits n, .atom s => (parseHex s).bind fun bs =>
+  | .bitset, .atom s => (parseGen s).map fun (n, seed) =>
+      (List.range n).map fun k => BitVec.ofNat 64 (mix (itemSeed seed k))
+  | .ary _ t, .atom s => (parseGen s).map fun (n, seed) => (List.range n).map fun k => genAbs t (itemSeed seed k) 0
+  | .pair a b, .atom s => (parseGen s).map fun (_, seed) => genTuple (.pair a b) seed 0
+  | .fixedbits n, .atom s => (parseBytesExpr s).bind fun bs =>
       if bs.length = n then some (BitVec.ofNat (8 * n) (unbe bs)) else none
   | .unit, .list [] => some ()
   | .pair a b, .list (x :: xs) => do
@@ -143,7 +198,12 @@ def toAbs : (t : Ty) → SV → Option t.Abs
   | .ary _ t, .list xs => xs.mapM (toAbs t)
   | _, _ => none
 
-def joinComma (xs : List String) : String := "(" ++ ",".intercalate xs ++ ")"
+/-- a list or a tuple: in full up to 64 items, otherwise `#<count>.<FNV-1a 64 of the joined text>` (harness `c06Join`) -/
+def joinComma (xs : List String) : String :=
+  let j := ",".intercalate xs
+  if xs.length ≤ 64 then "(" ++ j ++ ")" else
+  let h : UInt64 := j.toUTF8.foldl (fun h b => (h ^^^ b.toUInt64) * 1099511628211) 14695981039346656037
+  s!"#{xs.length}.{hexOfNat 16 h.toNat}"
 
 mutual
 /-- canonical printing (the harness prints decoded values the same way) -/
